@@ -349,7 +349,7 @@ func TestC02Mgr(t *testing.T) {
 		}
 		// in a quarter of the cases the node is stopped the moment the terminal status is announced, while
 		// the datastore is slow: the terminal status must be what a later lifetime finds
-		stopRace := reopened && variant%2 == 1
+		stopRace := reopened && (variant%2 == 1 || c.Index%2 == 0)
 		var termView *doubles.StateView
 		if stopRace {
 			var once sync.Once
@@ -366,7 +366,7 @@ func TestC02Mgr(t *testing.T) {
 					// write has landed), and the write that is in flight when the terminal status is announced
 					// is carried out, in order, but late - after the stopping node has had every chance to look
 					// at the record
-					for i := 0; i < 300 && !announced.Load(); i++ {
+					for i := 0; i < 3000 && !announced.Load(); i++ {
 						doubles.Yield(1)
 					}
 					for i := 0; announced.Load() && i < 20000 && !readByStop.Load(); i++ {
